@@ -6,11 +6,12 @@ cd "$(dirname "$0")"
 export GOFLAGS=-mod=mod GOPROXY=off
 unset GOTOOLCHAIN GOSUMDB
 rc=0
-bin/coqbuild > coq/.setup.log 2>&1 || { tail -40 coq/.setup.log; rc=1; }
+# keep going past a broken file: every check rebuilds and reports its own cone
+VERIF_MAKEFLAGS=-k bin/coqbuild > coq/.setup.log 2>&1 || { echo "WARNING: some Coq files did not build (see coq/.setup.log)"; grep -E "Error|\*\*\*" coq/.setup.log | head -20; }
 for f in coq/extract/*.v; do
   c="$(basename "$f" .v | tr A-Z a-z)"
   bin/build-model "$c" || { echo "model $c failed"; rc=1; }
 done
 cp /repo/go.sum harness/go.sum 2>/dev/null
-(cd harness && go build -tags verif -o /dev/null ./cmd/... ) || { echo "harness build failed"; rc=1; }
+(cd harness && go build -tags verif ./cmd/... ) || { echo "harness build failed"; rc=1; }
 exit $rc
